@@ -1320,6 +1320,30 @@ mut("C13", "command-word-reparsed", "R13-6|types::CommandLine::from_line|retoken
 
         let mut background = false;"""))
 
+mut("C16", "tag-escape-skipped-after-backslash", "R16-3|tools::wrap_sep_string|tag-escape-narrowed",
+    "wrap_sep_string does not escape the quote character when the previous character is a backslash",
+    (TL, """    let mut previous_subsep = 'N';
+    for c in s.chars() {""", """    let mut previous_subsep = 'N';
+    let mut previous = 'N';
+    for c in s.chars() {"""),
+    (TL, """        if c.to_string() == sep {
+            _token.push('\\\\');
+        }""", """        if c.to_string() == sep && previous != '\\\\' {
+            _token.push('\\\\');
+        }
+        previous = c;"""))
+mut("C17", "alias-lookup-none-skips-counter", "R17-5|shell::expand_alias|scan-counter",
+    "an alias whose content is None leaves the position counter behind",
+    (S, """        if let Some(value) = sh.get_alias_content(text) {
+            buff.push((idx, value.clone()));
+        }
+""", """        let value = match sh.get_alias_content(text) {
+            Some(v) => v,
+            None => continue,
+        };
+        buff.push((idx, value.clone()));
+"""))
+
 # ------------------------------------------------------------------ more refactors
 ref("history-params-vec", ["C18"], "bind the INSERT parameters through a params! style slice",
     (H, "    match conn.execute(&sql, [line.trim(), info.as_str()]) {",
